@@ -1,17 +1,40 @@
 """C06 -- Garbage collection is safe against concurrently committing transactions.
 
 Proof      : coq/Props/C06.v over Model/GCRace.v: for every interleaving of collection runs (each shorter than its
-             grace period) with transactions that write, commit or roll back -- files may be arbitrarily older than
-             the grace period when they commit -- referenced files and in-flight files are never deleted.  The proof
-             rests on the ORDER of the collector's reads: protection markers first, then metadata.
+             grace period) with transactions that write, commit, retry or roll back -- any amount of time may pass at
+             any point of a transaction, in particular between the registration of a marker and the moment its file is
+             in place (a slow write), and files may be arbitrarily older than the grace period when they commit --
+             referenced files and in-flight files are never deleted, for every file whose marker no run treated as
+             abandoned (C06_gc_race_safe); a marker is treated as abandoned only when it is older than the abandonment
+             timeout, whatever the grace period and whether or not its file exists yet (C06_swept_only_abandoned), and
+             stays in place until then (C06_unswept_marker_kept).  The unit of the model is a marker-protected FILE
+             (data file, manifest, manifest list).  The collector's decisions are not modelled by hand: the marker age
+             test / action of _load_inflight_protection and the cutoff / deletion guard of _gc_prefix are REGENERATED
+             from garbage_collector.py (translator/gen_gcrace.py -> Gen/GenGCRace.v, fail-closed) and the machine and
+             the invariant proof are stated over them (C06_marker_kernel, C06_delete_kernel are their interface).
+             The proof rests on the ORDER of the collector's reads: protection markers first, then metadata.
+             PRE-BUILT files (Transaction.append_files) exist before their transaction and may be older than any grace
+             period: the machine has them staged with any age and adopted by marker + a look for an ANNOUNCED collection
+             run (Table.garbage_collect announces a run before it loads the markers; adoption is refused while one is
+             announced) -- repair ae2d4aa; adoption as the code did it before (no marker, no handshake) refutes the
+             statement (C06_unmarked_adoption_refuted: the counter-run, 4 ms against a grace period of 1 h).
 Tie        : the real GarbageCollector.collect runs as an actor under the scheduler against real transactions on the
              local backend in VIRTUAL time (time.time in the collector, datetime in the library, and file modification
              times all come from the scheduler clock, so 'five hours pass' is one schedule event); the storage log is
-             projected onto the model's events (marker write, file write, flip, marker removal, rollback; marker load,
-             metadata read, listing, deletion) and `grun_strict` must accept it -- in particular the collector must
-             load the markers BEFORE it reads the metadata.
+             projected onto the model's events per file (marker write, file write, flip, marker removal, abandoning the
+             manifests of a lost attempt, rollback; marker load, marker deletion by the collector, metadata read,
+             listing, deletion) and `grun_strict` must accept it -- in particular the collector must load the markers
+             BEFORE it reads the metadata, and may delete a marker only when the regenerated kernel says so.
 Oracle     : at the end every file referenced by every retained snapshot exists (independent reader), for every run
-             whose collection lasted less than the grace period.
+             whose collection lasted less than the grace period and in which no transaction outlived the abandonment
+             window.  Schedules: bounded-preemption enumeration, random, and directed families -- old file at commit,
+             OCC retry window, two collection runs, ambiguous (delayed) pointer write, long run / long grace, grace
+             boundary crossing, long-open transaction, clock jumps at EVERY point of a transaction (slow writes of the
+             data file / manifest / manifest list) with a collection run inside the gap and a second one later,
+             transactions beyond the abandonment window (traced against the model, not judged), random two-run
+             interleavings with four clock jumps; transactions that ADOPT a pre-built file ten hours old
+             (append_files + commit) at every point of a collection run.  An adoption that append_files refuses (run in
+             progress, or the orphan was already collected) is an accepted outcome: nothing references the file.
 """
 from __future__ import annotations
 
@@ -24,22 +47,34 @@ from harness.lib import coqbuild, protocol as P, sched as S
 from harness.props import c01
 
 LEVEL = "proof"
-THEOREMS = ["C06_gc_race_safe"]
+THEOREMS = ["C06_gc_race_safe", "C06_swept_only_abandoned", "C06_unswept_marker_kept", "C06_marker_kernel", "C06_delete_kernel",
+            "C06_unmarked_adoption_refuted"]
 REQ = ["DS.Model.GCRace"]
 MANIFEST_ENTRY = {
     "level_text": "C06_gc_race_safe proved in Coq by an inductive invariant over every interleaving of collector steps, "
-                  "transaction steps and clock ticks (any number of transactions, any file ages, several runs), under the "
-                  "property's proviso (run shorter than grace); the real collector and real transactions run under the "
-                  "deterministic scheduler in virtual time and their storage log must be accepted by the model's strict run "
-                  "(collector reads markers before metadata); an implementation-only oracle re-reads every retained snapshot",
-    "level_note": "trusted: Coq kernel; scheduler harness with virtual clock and virtual modification times; one file per "
-                  "transaction in the model (manifests / lists follow the same marker-before-write discipline and are "
-                  "judged by the oracle); markers younger than the 24 h abandonment window",
-    "technique": "Coq invariant proof over a collector x transactions machine + scheduled trace validation in virtual time",
+                  "transaction steps on any number of marker-protected files (data files, manifests, manifest lists; slow writes: "
+                  "any time between a marker and its file; retries abandoning the lost attempt's manifests; rollbacks) and clock "
+                  "ticks, several runs, under the property's proviso (run shorter than grace), for every file whose marker no run "
+                  "treated as abandoned; pre-built files of any age adopted by append_files (marker + refusal while a collection run "
+                  "is announced; C06_unmarked_adoption_refuted: the unrepaired adoption violates the statement); C06_swept_only_abandoned / C06_unswept_marker_kept: a marker is deleted by the collector "
+                  "only when older than the abandonment timeout and stays in place until then; the collector's marker-age and "
+                  "deletion kernels are regenerated from garbage_collector.py (GenGCRace.v) and the proofs are stated over them; "
+                  "the real collector and real transactions run under the deterministic scheduler in virtual time and their "
+                  "storage log must be accepted by the model's strict run (markers before metadata; marker deletions only as the "
+                  "regenerated kernel allows); an implementation-only oracle re-reads every retained snapshot",
+    "level_note": "trusted: Coq kernel; translator/gen_gcrace.py (fail-closed); scheduler harness with virtual clock and virtual "
+                  "modification times; transactions younger than the 24 h abandonment window (older ones are traced against the "
+                  "model but not judged: the code deliberately stops protecting them)",
+    "technique": "Coq invariant proof over a collector x transactions machine stated over regenerated collector kernels + "
+                 "scheduled trace validation in virtual time (clock jumps at every point of a transaction, two collection runs, "
+                 "adoption of old pre-built files at every point of a run)",
     "design_ref": "DESIGN.md section 5 C06",
 }
 
 GRACE = 1000
+ABANDON_MS = 24 * 3600 * 1000        # the documented abandonment window of in-flight markers (24 h)
+COLLECTING = "metadata/collecting"   # announcements of collection runs in progress
+STAGED_AGE_MS = 10 * 3600 * 1000     # age of a pre-built file when the schedule starts (older than every grace period used)
 FIELDS = [{"id": 1, "name": "x", "type": "long", "required": False}]
 
 
@@ -52,6 +87,8 @@ def yield_filter(op: str, path: str, phase: tuple) -> bool:
         return True
     if op == "write_file" and P.path_class(path) in ("marker", "manifest", "mlist"):
         return True
+    if op == "write_file" and path.lstrip("/").startswith(COLLECTING):
+        return True                                   # a collection run announces itself
     return False
 
 
@@ -131,6 +168,19 @@ def run_case(ctx, txns: List[Dict[str, Any]], chooser_factory, age_jump: int, se
         try:
             t0 = datashard.create_table(root, Schema(schema_id=1, fields=FIELDS))
             t0.append_records([{"x": -1}])
+            # pre-built files for the transactions that adopt one (Transaction.append_files): a copy of the table's own
+            # first data file (same schema, one row), in place long before the schedule starts
+            staged: Dict[str, Dict[str, Any]] = {}
+            first = sorted(os.listdir(os.path.join(root, "data")))[0]
+            for i, spec in enumerate(txns):
+                if spec["kind"] == "adopt":
+                    name = f"prebuilt_{i}.parquet"
+                    shutil.copy(os.path.join(root, "data", first), os.path.join(root, "data", name))
+                    vmtime[f"data/{name}"] = (sc.clock_ms - STAGED_AGE_MS) / 1000.0
+                    staged[name] = {"tx": i, "mtime_ms": sc.clock_ms - STAGED_AGE_MS,
+                                    "size": os.path.getsize(os.path.join(root, "data", name))}
+            out["staged"] = staged
+            out["kinds"] = {f"A{i}": spec["kind"] for i, spec in enumerate(txns)}
             sc.clock_ms += 10
             sc.log.clear()
             gc_window: Dict[str, int] = {}
@@ -140,6 +190,12 @@ def run_case(ctx, txns: List[Dict[str, Any]], chooser_factory, age_jump: int, se
                     t = datashard.load_table(root)
                     if spec["kind"] == "append":
                         t.append_records(spec["rows"])
+                        return "ok"
+                    if spec["kind"] == "adopt":
+                        from datashard.data_structures import DataFile, FileFormat
+                        name = f"prebuilt_{i}.parquet"
+                        t.append_data([DataFile(file_path=f"/data/{name}", file_format=FileFormat.PARQUET, partition_values={},
+                                                record_count=1, file_size_in_bytes=staged[name]["size"])])
                         return "ok"
                     tx = t.new_transaction().begin()
                     tx.append_data(spec["rows"])
@@ -203,6 +259,7 @@ def run_case(ctx, txns: List[Dict[str, Any]], chooser_factory, age_jump: int, se
             out["gc_window"] = gc_window
             out["delayed_flip"] = delayed_flip
             out["grace"] = grace
+            out["inflight_timeout"] = int(getattr(gcmod, "DEFAULT_INFLIGHT_TIMEOUT_MS", ABANDON_MS))
             try:
                 out["final"] = P.read_table_independent(root)
             except Exception as e:
@@ -213,18 +270,42 @@ def run_case(ctx, txns: List[Dict[str, Any]], chooser_factory, age_jump: int, se
     return out
 
 
+def outside_abandonment(out: Dict[str, Any]) -> bool:
+    """Independent of the collector's decision: did a collection run load the markers while a marker some transaction
+    had written (and not yet removed) was older than the documented abandonment window?  Such a transaction has, by
+    design, given up its protection ('markers younger than the abandonment window' is the recorded assumption)."""
+    written: Dict[str, int] = {}
+    for e in out["log"]:
+        if P.path_class(e["path"]) == "marker" and e["actor"].startswith("A"):
+            if e["op"] == "write_file":
+                written[e["path"].lstrip("/")] = e["clock"]
+            elif e["op"] == "delete_file":
+                written.pop(e["path"].lstrip("/"), None)
+        elif e["actor"] in ("G", "H") and e["op"] == "list_files" and e["path"].rstrip("/") == "metadata/inflight":
+            if any(e["clock"] - c >= ABANDON_MS - 1000 for c in written.values()):
+                return True
+    return False
+
+
 def oracle(out: Dict[str, Any]) -> Optional[str]:
     if out["deadlock"]:
         return "deadlock: " + out["deadlock"]
     w = out["gc_window"]
     if "end" in w and w["end"] - w["start"] >= out.get("grace", GRACE):
         return None                                    # outside the proviso: the run lasted longer than the grace period
+    if outside_abandonment(out):
+        return None                                    # outside the assumption: a transaction outlived the abandonment window
     if "error" in out["final"]:
         return "table unreadable after the run: " + out["final"]["error"]
     if out["final"]["missing"]:
         return f"files referenced by retained snapshots were deleted by the collector: {out['final']['missing'][:3]}"
     for n, (st, d) in out["outcomes"].items():
         if st != "ok" and not (out.get("delayed_flip") and n == "A0" and "AmbiguousCommitError" in d):
+            if out.get("kinds", {}).get(n) == "adopt" and d.split(":")[0] in ("CollectionInProgressError", "FileNotFoundError") \
+                    and not any(e["actor"] == n and "Transaction.commit" in e["phase"] for e in out["log"]):
+                # append_files REFUSED the pre-built file before anything was queued: a collection run was in progress, or an
+                # earlier run had collected the (unreferenced, unmarked, old) file as the orphan it was.  Nothing references it.
+                continue
             if n in ("G", "H") and d.startswith("GarbageCollectionAborted:"):
                 # a collection that gives up (e.g. the pointer moved between its two resolutions of it, repair d28ca28)
                 # is the fail-closed outcome: the property is about what a run DELETES, and nothing is missing (above)
@@ -233,60 +314,137 @@ def oracle(out: Dict[str, Any]) -> Optional[str]:
     return None
 
 
-def project(out: Dict[str, Any], ntx: int) -> Tuple[List[str], Optional[str]]:
-    """Model events; second component = reason the trace is non-conforming (unknown collector behaviour)."""
+def project(out: Dict[str, Any], ntx: int) -> Tuple[List[str], Optional[str], int]:
+    """Model events (Model/GCRace.v); reason the trace is non-conforming (behaviour the model has no event for); number
+    of model files.  The model's unit is a marker-protected FILE: every data file, manifest and manifest list a
+    transaction writes gets its own id, in the order the markers appear."""
     evs: List[str] = []
-    data_of: Dict[str, int] = {}              # data file basename -> transaction
-    marked: Dict[int, bool] = {}
-    rolled: Dict[int, bool] = {}
+    fid: Dict[str, int] = {}                  # basename of the protected file -> model file id
+    owner: Dict[int, int] = {}                # file id -> transaction
+    kind: Dict[int, str] = {}                 # file id -> data | manifest | mlist
+    state: Dict[int, str] = {}                # file id -> marked | written | flipped | done | rolled | orphaned
     last_clock = None
     gc_open: List[Optional[str]] = [None]
+    timeout = out.get("inflight_timeout", ABANDON_MS)
+
+    def flip(t: int) -> None:
+        """Transaction t's pointer write took effect: its data files and the manifest / manifest list of THIS attempt
+        (the newest ones it wrote) are referenced from now on."""
+        mine = [f for f in sorted(owner) if owner[f] == t]
+        now_ref = [f for f in mine if kind[f] == "data"]
+        for k in ("manifest", "mlist"):
+            ks = [f for f in mine if kind[f] == k and state[f] in ("written",)]
+            now_ref += ks[-1:]
+        for f in sorted(now_ref):
+            evs.append(f"TFlip {f}%nat")
+            if state[f] == "written":
+                state[f] = "flipped"
+
+    # pre-built files: in place (with their age) before the first event
+    t_first = out["log"][0]["clock"] if out["log"] else 0
+    for name, st in sorted(out.get("staged", {}).items()):
+        f = fid[name] = len(fid)
+        owner[f] = st["tx"]
+        kind[f] = "data"
+        state[f] = "staged"
+        evs.append(f"TStage {f}%nat ({st['mtime_ms'] - t_first})")
+    adopted_ok = {n for n, (st_, _d) in out.get("outcomes", {}).items() if st_ == "ok"} | \
+                 {e["actor"] for e in out["log"] if "Transaction.commit" in e["phase"]}
+
     for e in out["log"]:
         a, op, path, phase = e["actor"], e["op"], e["path"], e["phase"]
         pcs = P.path_class(path)
+        base = path.rsplit("/", 1)[-1]
         if last_clock is not None and e["clock"] > last_clock:
             evs.append(f"Tick {e['clock'] - last_clock}")
         last_clock = e["clock"] if last_clock is None or e["clock"] > last_clock else last_clock
         if a.startswith("A"):
             t = int(a[1:])
-            if op == "write_file" and pcs == "marker" and "Transaction.append_data" in phase:
-                evs.append(f"TMarkW {t}%nat")
-            elif op == "DataW":
-                data_of[path.rsplit("/", 1)[-1]] = t
-                evs.append(f"TDataW {t}%nat")
+            if op == "write_file" and pcs == "marker":
+                if "Transaction._register_inflight" not in phase:
+                    return evs, f"transaction {t} wrote the marker {base} outside _register_inflight (in {phase[-1] if phase else '?'})", len(fid)
+                name = base[:-len(".inflight")] if base.endswith(".inflight") else base
+                if name not in fid:
+                    f = fid[name] = len(fid)
+                    owner[f] = t
+                    kind[f] = "mlist" if name.startswith("manifest_list") else "manifest" if name.startswith("manifest_") else "data"
+                    state[f] = "marked"
+                if state[fid[name]] == "staged":
+                    state[fid[name]] = "adoptmarked"      # append_files registers the marker of a pre-built file
+                    evs.append(f"TAdoptMark {fid[name]}%nat")
+                else:
+                    evs.append(f"TMarkW {fid[name]}%nat")
+            elif op == "list_files" and path.rstrip("/") == COLLECTING:
+                # append_files looks for an announced collection run; when it goes on (the transaction reaches its commit), the
+                # files it marked are adopted HERE -- the model allows that only while no run is announced
+                if a in adopted_ok:
+                    for f in sorted(owner):
+                        if owner[f] == t and state[f] == "adoptmarked":
+                            state[f] = "written"
+                            evs.append(f"TAdopt {f}%nat")
+            elif op == "DataW" or (op == "write_file" and pcs in ("manifest", "mlist") and e["result"] == "ok"):
+                if base not in fid:
+                    return evs, f"transaction {t} wrote {path} without registering an in-flight marker for it first", len(fid)
+                f = fid[base]
+                evs.append(f"TDataW {f}%nat")
+                if state[f] == "marked":
+                    state[f] = "written"
             elif op == "write_file" and pcs == "hint" and e["result"] == "ok":
-                evs.append(f"TFlip {t}%nat")
+                flip(t)
             elif op == "delete_file" and pcs == "marker":
-                base = path.rsplit("/", 1)[-1]
-                is_data_marker = base.startswith("auto_") and base.endswith(".parquet.inflight")
-                known_phase = "Transaction._finish_committed" in phase or "Transaction._rollback" in phase
+                known_phase = "Transaction._finish_committed" in phase or "Transaction._rollback" in phase \
+                    or "Transaction._protect_adopted_files" in phase          # (a refused adoption takes its markers back)
                 if not known_phase:
                     return evs, (f"transaction {t} removed the in-flight marker {base} outside _finish_committed / _rollback "
-                                 f"(in {phase[-1] if phase else '?'}): protection dropped while the file may not be reachable yet")
-                if is_data_marker and "Transaction._finish_committed" in phase and not marked.get(t):
-                    marked[t] = True
-                    evs.append(f"TMarkD {t}%nat")
-                elif is_data_marker and "Transaction._rollback" in phase and not rolled.get(t) and not marked.get(t):
-                    # the data file's marker goes although the file stays (a rollback that keeps files): protection dropped
-                    marked[t] = True
-                    evs.append(f"TMarkD {t}%nat")
-            elif op == "delete_file" and pcs == "data" and "Transaction._rollback" in phase:
-                rolled[t] = True
-                evs.append(f"TRollback {t}%nat")
+                                 f"(in {phase[-1] if phase else '?'}): protection dropped while the file may not be reachable yet"), len(fid)
+                name = base[:-len(".inflight")] if base.endswith(".inflight") else base
+                f = fid.get(name)
+                if f is None:
+                    continue
+                if state[f] == "flipped":
+                    state[f] = "done"
+                    evs.append(f"TMarkD {f}%nat")
+                elif state[f] == "adoptmarked":
+                    state[f] = "orphaned"          # adoption refused / given up: the pre-built file is an orphan again
+                    evs.append(f"TAbandon {f}%nat")
+                elif state[f] == "written":
+                    # the marker goes although the file stays and is not referenced: the manifests of a lost commit attempt
+                    # (legitimate: the file is an orphan from now on) -- or protection dropped from a file that is published
+                    # later, which the model then refuses (TFlip of an abandoned file)
+                    state[f] = "orphaned"
+                    evs.append(f"TAbandon {f}%nat")
+                elif state[f] == "marked":
+                    state[f] = "rolled"
+                    evs.append(f"TRollback {f}%nat")
+            elif op == "delete_file" and pcs in ("data", "manifest", "mlist") and "Transaction._rollback" in phase:
+                f = fid.get(base)
+                if f is not None and state[f] in ("marked", "written"):
+                    state[f] = "rolled"
+                    evs.append(f"TRollback {f}%nat")
         elif a == "N" and op == "Land":
             if out.get("outcomes", {}).get("N", ("", ""))[1] == "landed":
-                evs.append("TFlip 0%nat")           # the delayed pointer write takes effect: transaction 0 is committed now
+                flip(0)                             # the delayed pointer write takes effect: transaction 0 is committed now
         elif a in ("G", "H") and any(p.startswith("GarbageCollector.") for p in phase):
-            if op == "list_files" and path.rstrip("/") == "metadata/inflight":
-                if gc_open[0] is not None and gc_open[0] != a:
+            if op == "write_file" and path.lstrip("/").startswith(COLLECTING):
+                if gc_open[0] is not None:
                     evs.append("GEnd")          # the previous run is over (schedules never overlap two collectors)
                 gc_open[0] = a
-                evs.append("GMarks")
+                evs.append("GAnnounce")         # Table.garbage_collect announces the run before anything else
+            elif op == "delete_file" and path.lstrip("/").startswith(COLLECTING):
+                if "GarbageCollector.withdraw_run" in phase and gc_open[0] == a:
+                    gc_open[0] = None
+                    evs.append("GEnd")          # the announcement is withdrawn: the run is over
+            elif op == "list_files" and path.rstrip("/") == "metadata/inflight":
+                if gc_open[0] is not None and gc_open[0] != a:
+                    evs.append("GEnd")
+                gc_open[0] = a                  # (a run that did not announce itself: the model refuses its GMarks)
+                evs.append(f"GMarks {timeout}")
             elif op == "delete_file" and pcs == "marker":
-                # every marker of these runs is younger than the abandonment window (24 h): the collector has no business
-                # removing one -- the file it names loses its protection for the rest of its transaction
-                return evs, (f"collector removed the in-flight marker {path.rsplit('/', 1)[-1]}, which is younger than the abandonment "
-                             f"window (in {phase[-1] if phase else '?'})")
+                # the model decides (regenerated kernel): enabled only for a marker older than the abandonment timeout
+                name = base[:-len(".inflight")] if base.endswith(".inflight") else base
+                if name not in fid:
+                    return evs, f"collector removed an in-flight marker no transaction of this run wrote: {base}", len(fid)
+                evs.append(f"GSweep {fid[name]}%nat")
             elif op in ("read_file",) and pcs == "hint" and "GarbageCollector.collect" in phase and "GarbageCollector._load_inflight_protection" not in phase \
                     and "GarbageCollector._require_hinted_metadata_present" not in phase:
                 # (the hint re-read of _require_hinted_metadata_present only decides abort / go on: the view of the table
@@ -294,21 +452,19 @@ def project(out: Dict[str, Any], ntx: int) -> Tuple[List[str], Optional[str]]:
                 evs.append("GMeta")
             elif op == "list_files" and path.rstrip("/") in ("data", "metadata/manifests"):
                 evs.append(f"GList {out.get('grace', GRACE)}")
-            elif op == "delete_file" and pcs == "data":
-                b = path.rsplit("/", 1)[-1]
-                if b in data_of:
-                    evs.append(f"GDel {data_of[b]}%nat")
+            elif op == "delete_file" and pcs in ("data", "manifest", "mlist"):
+                if base in fid:
+                    evs.append(f"GDel {fid[base]}%nat")
                 else:
-                    return evs, f"collector deleted a data file no transaction of this run wrote: {path}"
-            elif op == "delete_file" and pcs in ("manifest", "mlist"):
-                evs.append("GDelOrphan 0%nat")     # judged by the oracle; orphan manifests of retried commits exist legitimately
-    evs.append("GEnd")
-    return evs, None
+                    return evs, f"collector deleted a file no transaction of this run wrote (it belongs to the table as set up): {path}", len(fid)
+    if gc_open[0] is not None:
+        evs.append("GEnd")
+    return evs, None, len(fid)
 
 
-def model_expr(evs: List[str], ntx: int) -> str:
-    return (f"match grun_strict (ginit [(0%nat, -1000000)]) [{'; '.join(e for e in evs if not e.startswith('GDelOrphan'))}] 0%nat with "
-            f"| inl w => (1, (Z.of_nat (List.length (g_deleted w)), map (fun t => if g_present w t then 1 else 0) (seq 0%nat {ntx}%nat))) "
+def model_expr(evs: List[str], nfiles: int) -> str:
+    return (f"match grun_strict (ginit [(0%nat, -1000000)]) [{'; '.join(evs)}] 0%nat with "
+            f"| inl w => (1, (Z.of_nat (List.length (g_deleted w)), map (fun t => if g_present w t then 1 else 0) (seq 0%nat {nfiles}%nat))) "
             f"| inr i => (0, (Z.of_nat i, [])) end")
 
 
@@ -352,7 +508,7 @@ def segment_chooser(segments: List[Tuple[str, int]]):
     return factory
 
 
-def directed(ctx, txns, quick: bool):
+def directed(ctx, txns, quick: bool, cap: int = 160):
     """Old-file patterns: transaction 0 runs i steps, the clock jumps, the collector runs j steps, the transaction
     finishes, the collector finishes -- for all i, j (the shape of every 'file already old when it commits' race)."""
     base = run_case(ctx, txns, segment_chooser([("A0", 10**6), ("K", 10**6), ("G", 10**6)]), 5000)
@@ -361,8 +517,8 @@ def directed(ctx, txns, quick: bool):
     iset = range(1, na + 1)
     jset = range(0, ng + 1)
     pairs = [(i, j) for i in iset for j in jset]
-    if quick and len(pairs) > 160:
-        pairs = ctx.rng.sample(pairs, 160)
+    if quick and len(pairs) > cap:
+        pairs = ctx.rng.sample(pairs, cap)
     for i, j in pairs:
         seg = [("A0", i), ("K", 10**6), ("G", j), ("A0", 10**6), ("G", 10**6)]
         yield [("segments", seg)], run_case(ctx, txns, segment_chooser(seg), 5000)
@@ -486,29 +642,111 @@ def directed_long_open(ctx, txns, quick: bool):
         yield [("segments6", seg)], run_case(ctx, txns, segment_chooser(seg), 0, grace=big, jumps=[700_000, 0])
 
 
+def sched_case(ctx, txns, seg: List[Tuple[str, int]], **kw: Any):
+    """One run under a segment schedule; the replay payload carries the schedule and every parameter of the run."""
+    return [("sched", {"segments": [list(x) for x in seg], "kw": kw})], run_case(ctx, txns, segment_chooser(seg), 0, **kw)
+
+
+def no_overlap(chooser):
+    """The second collection run starts only when the first is over (the model has one collector)."""
+    def choose(enabled: List[str], s: S.Scheduler) -> Optional[str]:
+        en = [a for a in enabled if not (a == "H" and "G" in enabled)]
+        return chooser(en or enabled, s)
+    return choose
+
+
+def directed_slow_steps(ctx, txns, quick: bool, who: int = 0):
+    """Time passes INSIDE a transaction, at every point of it -- in particular between the registration of a marker and the
+    moment its file is in place (a slow write of the data file, of a manifest, of a manifest list): transaction `who`
+    runs p steps, the clock jumps (far beyond the grace period, far below the abandonment window), a first collection
+    runs completely, the transaction runs j more steps, the clock jumps again (whatever the transaction has written is
+    old now), a second collection runs k steps, the transaction finishes, the second collection finishes -- for all
+    p, j, k.  Both runs last a few milliseconds.  The oracle reads the final table."""
+    me = f"A{who}"
+    jumps = [5000, 5000]
+    probe = run_case(ctx, txns, segment_chooser([(me, 10**6), ("K", 10**6), ("G", 10**6), ("H", 10**6)]), 0, second_gc=True, jumps=jumps)
+    na = sum(1 for a in probe["schedule"] if a == me)
+    nh = sum(1 for a in probe["schedule"] if a == "H")
+    combos = []
+    for p in range(1, na + 1):
+        mine = [(p, j, k) for j in range(0, na - p + 1) for k in range(0, nh + 1)]
+        if quick:
+            # every p: the file in place right after the jump and the second run complete before the transaction goes on;
+            # then a sample of the rest
+            fixed = [c for c in mine if (c[1], c[2]) in ((1, nh), (2, nh))]
+            rest = [c for c in mine if c not in fixed]
+            mine = fixed + ctx.rng.sample(rest, min(len(rest), 2))
+        combos += mine
+    if not quick and len(combos) > 500:
+        combos = ctx.rng.sample(combos, 500)
+    for p, j, k in combos:
+        # K: step 1 starts the clock actor, step 2 performs the first jump, step 3 the second
+        seg = [(me, p), ("K", 2), ("G", 10**6), (me, j), ("K", 10**6), ("H", k), (me, 10**6), ("H", 10**6)]
+        yield sched_case(ctx, txns, seg, second_gc=True, jumps=jumps)
+
+
+def directed_abandoned(ctx, txns, quick: bool):
+    """A transaction that outlives the abandonment window (25 h pass at some point of it): the collector deletes its
+    markers -- the one situation in which it may -- and its files fall back to ordinary orphan handling.  Outside the
+    recorded assumption, so the oracle does not judge these runs; the correspondence does: the model must accept the
+    marker deletions (the regenerated kernel: older than the timeout) and what is deleted afterwards."""
+    jumps = [ABANDON_MS + 3_600_000, 0]
+    probe = run_case(ctx, txns, segment_chooser([("A0", 10**6), ("K", 10**6), ("G", 10**6)]), 0, jumps=jumps)
+    a0 = [e for e in probe["log"] if e["actor"] == "A0"]
+    # up to the point where the commit takes the lock (a lock held for 25 h has expired: another story, C08 / C19)
+    lk = next((n for n, e in enumerate(a0) if e["op"] == "LockTry"), len(a0) - 1)
+    upto = 1 + sum(1 for e in a0[:lk] if yield_filter(e["op"], e["path"], e["phase"]))
+    ps = list(range(1, upto + 1))
+    if quick and len(ps) > 8:
+        ps = ctx.rng.sample(ps, 8)
+    for p in ps:
+        seg = [("A0", p), ("K", 2), ("G", 10**6), ("A0", 10**6), ("K", 10**6)]
+        yield sched_case(ctx, txns, seg, jumps=jumps)
+
+
+def random_two_runs(ctx, txns, n: int):
+    """Random interleavings of the transactions with TWO collection runs (one after the other) and a clock that jumps four
+    times, by amounts on both sides of the grace period, anywhere."""
+    for _ in range(n):
+        seed = ctx.rng.randrange(1 << 30)
+        jumps = [ctx.rng.choice([0, 300, 900, 1100, 5000, 5000]) for _ in range(4)]
+        yield ([("random2", {"seed": seed, "jumps": jumps})],
+               run_case(ctx, txns, lambda sc, seed=seed: no_overlap(S.random_chooser(_r.Random(seed), 0.3)), 0, second_gc=True, jumps=jumps))
+
+
 TXSETS = [
     [{"kind": "append", "rows": [{"x": 100}]}],
     [{"kind": "append", "rows": [{"x": 100}]}, {"kind": "rollback", "rows": [{"x": 200}]}],
     [{"kind": "append", "rows": [{"x": 100}]}, {"kind": "append", "rows": [{"x": 200}]}],
+    [{"kind": "adopt"}],                                                    # append_files of a pre-built file, 10 h old
+    [{"kind": "append", "rows": [{"x": 100}]}, {"kind": "adopt"}],
 ]
 
 
 def run(ctx) -> None:
-    ctx.rule = ("schedules of one collector (grace 1000 ms) with 1-2 transactions (append incl. OCC retry, rollback) and a clock "
-                "actor that jumps time by 5000 ms twice (file ages on both sides of the grace period), at storage-operation "
-                "granularity; bounded-preemption enumeration + random; distinct = executed schedule")
-    ctx.trusted_base += ["harness/lib/sched.py; harness/props/c06.py (virtual time: collector clock, library clock and file mtimes)"]
+    ctx.rule = ("schedules of one or two collection runs (grace 1000 ms / 10 min) with 1-2 transactions (append incl. OCC retry, rollback, "
+                "append_files of a pre-built file 10 h old) "
+                "and a clock actor that jumps time (5000 ms twice; at every point of a transaction incl. between a marker and its file; "
+                "25 h; four random amounts), at storage-operation granularity; bounded-preemption enumeration + directed families + "
+                "random; distinct = executed schedule")
+    ctx.trusted_base += ["harness/lib/sched.py; harness/props/c06.py (virtual time: collector clock, library clock and file mtimes)",
+                         "translator/gen_gcrace.py (collector kernels regenerated from garbage_collector.py, fail-closed)"]
     ctx.assumptions += ["collection run shorter than the grace period (runs violating the proviso are not judged)",
-                        "markers younger than the abandonment window"]
-    ctx.proofs(THEOREMS)
+                        "markers younger than the abandonment window (runs with an older marker at a marker load are not judged)"]
+    ctx.proofs(THEOREMS, gen_files=["GenGCRace.v"])
     ctx.allow_axioms([])
     quick = ctx.tier == "quick"
     exprs, metas, bad = [], [], []
-    total = judged = gc_gave_up = 0
+    total = judged = gc_gave_up = abandoned = adopt_refused = 0
     for ti, txns in enumerate(TXSETS):
-        runs = list(explore(ctx, txns, 5000, 2 if quick else 3, (40 if ti < 2 else 12) if quick else 900))
+        if quick and ti == 4:
+            continue                                # (append + adopt together: thorough tier)
+        runs = list(explore(ctx, txns, 5000, 2 if quick else 3, (40 if ti < 2 else 25 if ti == 3 else 12) if quick else 900))
         if ti == 0 or not quick:
             runs += list(directed(ctx, txns, quick))
+        elif ti == 3:
+            # a pre-built OLD file adopted and committed at every point of a collection run
+            runs += list(directed(ctx, txns, quick, cap=55))
         if ti == 2:
             runs += list(directed_retry(ctx, txns, quick))
         if ti == 0:
@@ -517,6 +755,12 @@ def run(ctx) -> None:
             runs += list(directed_long_run(ctx, txns, quick))
             runs += list(directed_boundary(ctx, txns, quick))
             runs += list(directed_long_open(ctx, txns, quick))
+            runs += list(directed_abandoned(ctx, txns, quick))
+        if ti == 0 or not quick:
+            for who in range(len(txns)):
+                if txns[who]["kind"] == "append":
+                    runs += list(directed_slow_steps(ctx, txns, quick, who))
+        runs += list(random_two_runs(ctx, txns, 8 if quick else 120))
         for k in range(10 if quick else 200):
             seed = ctx.rng.randrange(1 << 30)
             runs.append(([("random", seed)], run_case(ctx, txns, lambda sc, seed=seed: S.random_chooser(_r.Random(seed), 0.4), 5000)))
@@ -527,21 +771,27 @@ def run(ctx) -> None:
             in_proviso = "end" in w and w["end"] - w["start"] < out.get("grace", GRACE)
             judged += 1 if in_proviso else 0
             gc_gave_up += 1 if any(st != "ok" and n in ("G", "H") for n, (st, _d) in out["outcomes"].items()) else 0
+            adopt_refused += 1 if any(st != "ok" and out.get("kinds", {}).get(n) == "adopt" for n, (st, _d) in out["outcomes"].items()) else 0
             why = oracle(out)
             if why:
-                ctx.violation(f"gc-race:{'+'.join(t['kind'] for t in txns)}", why,
+                cls = ("referenced-file-deleted" if why.startswith("files referenced") else "table-unreadable" if why.startswith("table unreadable")
+                       else "deadlock" if why.startswith("deadlock") else "actor-raised")
+                ctx.violation(f"gc-race:{'+'.join(t['kind'] for t in txns)}:{cls}", why,
                               {"txns": txns, "deviations": list(dev), "schedule": out["schedule"], "age_jump": 5000})
             if not in_proviso:
                 continue
-            evs, nc = project(out, len(txns))
+            abandoned += 1 if outside_abandonment(out) else 0
+            evs, nc, nfiles = project(out, len(txns))
             if nc:
                 bad.append({"txns": txns, "schedule": out["schedule"], "nonconforming": nc})
                 continue
-            exprs.append(model_expr(evs, len(txns)))
+            exprs.append(model_expr(evs, nfiles))
             metas.append((txns, dev, out, evs))
     ctx.stats["schedules"] = total
     ctx.stats["runs_within_proviso"] = judged
     ctx.stats["runs_in_which_a_collection_gave_up"] = gc_gave_up     # GarbageCollectionAborted (pointer moved under it): fail closed
+    ctx.stats["runs_in_which_an_adoption_was_refused"] = adopt_refused     # append_files: collection in progress / orphan already collected
+    ctx.stats["runs_with_a_transaction_beyond_the_abandonment_window"] = abandoned      # not judged by the oracle; traced against the model
     try:
         vals = coqbuild.coq_eval(REQ, exprs, chunk=60)
     except RuntimeError as e:
@@ -563,7 +813,13 @@ def replay(ctx, payload) -> int:
         print("replay: no concrete case")
         return 2
     dev = c.get("deviations", [])
-    if dev and dev[0][0] == "segments6":
+    if dev and dev[0][0] == "sched":
+        d = dev[0][1]
+        out = run_case(ctx, c["txns"], segment_chooser([(a, n) for a, n in d["segments"]]), 0, **d.get("kw", {}))
+    elif dev and dev[0][0] == "random2":
+        d = dev[0][1]
+        out = run_case(ctx, c["txns"], lambda sc: no_overlap(S.random_chooser(_r.Random(d["seed"]), 0.3)), 0, second_gc=True, jumps=d["jumps"])
+    elif dev and dev[0][0] == "segments6":
         out = run_case(ctx, c["txns"], segment_chooser([(a, n) for a, n in dev[0][1]]), 0, grace=600_000, jumps=[700_000, 0])
     elif dev and dev[0][0] == "segments5":
         out = run_case(ctx, c["txns"], segment_chooser([(a, n) for a, n in dev[0][1]]), 0, jumps=[GRACE - 100, 250])
